@@ -73,6 +73,7 @@ def run(ctx):
     ctx.require('C07 decided cells', tot, 500)
     # R10: every non-zero integer / every non-zero real posit on rounding cells
     import rules_rounding
+    ctx.trusted += [t for t in rules_rounding.TRUSTED if t not in ctx.trusted]
     ctx.rules.append('R10 rounding cells: integer->posit per (sign, leading-one position, rounding case); posit->integer per (sign, regime, exponent, rounding case at the units position)')
     ncells = nproved = 0
     zero_ok = zero_n = 0
